@@ -279,7 +279,7 @@ def run(ck, facts, tier):
             continue
         derived = {param}
         changed = True
-        roots = thir_all(facts, b)
+        roots = [facts.thir(key)]         # closures and single-use helpers spliced in
         while changed:
             changed = False
             for t in roots:
